@@ -184,7 +184,8 @@ func propC17(r *Run) {
 			}
 		}
 		// every stored password of the model passes the policy and authenticates
-		for u, pw := range stored {
+		for _, u := range sortedKeysA(stored) {
+			pw := stored[u]
 			if !passes(u, pw) {
 				r.Fail("policy/failing-password-stored/final", "%s has password %s which fails %q", u, simrt.Q(pw), cond)
 			}
